@@ -155,9 +155,15 @@ def run(ctx):
         msk = [rng.random() < 0.5 for _ in range(L)]
         if impl.ops_of(lst[np.array(msk)]) != [o for o, m in zip(lst_ops, msk) if m]:
             ctx.fail('PauliList.__getitem__', 'boolean mask', dict(ops=lst_ops, mask=msk))
+        if impl.ops_of(lst[list(msk)]) != [o for o, m in zip(lst_ops, msk) if m]:      # numpy reads a plain list of bools as a mask too
+            ctx.fail('PauliList.__getitem__', 'boolean mask given as a Python list', dict(ops=lst_ops, mask=msk))
         ia = [rng.randrange(L) for _ in range(rng.randrange(1, 5))]
         if impl.ops_of(lst[np.array(ia)]) != [lst_ops[k] for k in ia]:
             ctx.fail('PauliList.__getitem__', 'index array', dict(ops=lst_ops, idx=ia))
+        ib = [rng.randrange(-L, L) for _ in range(rng.randrange(1, 5))]
+        if impl.ops_of(lst[list(ib)]) != [lst_ops[k] for k in ib]:
+            ctx.fail('PauliList.__getitem__', 'index list (negative indices allowed)', dict(ops=lst_ops, idx=ib))
+        ctx.case(('getitem-forms', tuple(lst_ops), tuple(msk), tuple(ia), tuple(ib)), True)
         for k, c in enumerate([1, 1j, -1, -1j]):
             if impl.ops_of(c * lst) != [O.oscale(o, k) for o in lst_ops]:
                 ctx.fail('PauliList.__rmul__', 'multiplication by %s' % c, dict(ops=lst_ops))
